@@ -56,6 +56,14 @@ def check_case(sink, c, o):  # noqa: C901
         # 3. replacement leaves
         n = spec.num_leaves
         sink.check(n == len(leaves), 'num_leaves', 'num_leaves == len(leaves)', ident, lambda: (n, len(leaves)))
+        if o.pred in gen.LEAF_CONTENT_PREDS:
+            # the predicate looks at the leaf values: a tree rebuilt from other leaves is legitimately classified differently
+            sink.count('replacement-skipped:leaf-content-predicate')
+            mapped = optree.tree_map(_ident, c.tree, **kw)
+            d = same.diff(c.tree, mapped, leaf_ids=leaf_ids)
+            sink.check(d is None, 'identity-map', 'tree_map(identity) is the same tree', ident, d)
+            sink.case(harness.fp(c.desc.short(), o.key()), harness.nontrivial(ref.shape, c.mat), dict(ident, leaves=len(leaves), treespec=str(spec)[:300]))
+            return
         fresh = [U.Leaf(('r', i)) for i in range(n)]
         rebuilt3 = spec.unflatten(fresh)
         leaves3, spec3 = optree.tree_flatten(rebuilt3, **kw)
